@@ -256,9 +256,13 @@ class SchedulingSolver(BaseModelWithJson):
                     )
                     total_work_for_all_resources.append(work_contribution)
                 if total_work_for_all_resources:
-                    self.append_z3_assertion(
+                    work_assertion = (
                         z3.Sum(total_work_for_all_resources) >= task.work_amount
                     )
+                    if task.optional:
+                        # the work only has to be done if the task is scheduled
+                        work_assertion = z3.Implies(task._scheduled, work_assertion)
+                    self.append_z3_assertion(work_assertion)
 
         # process buffers
         for buffer in self.problem.buffers:
